@@ -959,14 +959,14 @@ func C07() *check.Property {
 		Title:    "Errors and panics surface once as an Error notification, never as a crash",
 		Patterns: cat(CorePatterns, PluginPkgs, IOPluginPkgs, []string{PromPkg}, RatePkgs),
 		Scope:    append([]string{ro}, IOPluginPkgs...),
-		Rules:    []check.Rule{ruleUserFnContext(), ruleGoRecover(), ruleCoreRecover(), ruleErrResultUsed(), ruleUnwrap(), ruleLockPairing(), rulePanicSafeUnlock(), ruleErrorKind(), ruleLockRegion(), ruleNilGuardPolarity(), ruleNilableCallbackGuarded(), ruleSlotGuardAgreement(), ruleAccessGuarded(), ruleNoEmitUnderTeardownLock(), ruleShareReplayConfig(), ruleTerminalReleaseAgreement(), ruleErrorBeforeRelease()},
+		Rules:    []check.Rule{ruleInnerTerminalBeforeDestination(), ruleFlushErrorChecked(), ruleUserFnContext(), ruleGoRecover(), ruleCoreRecover(), ruleErrResultUsed(), ruleUnwrap(), ruleLockPairing(), rulePanicSafeUnlock(), ruleErrorKind(), ruleLockRegion(), ruleNilGuardPolarity(), ruleNilableCallbackGuarded(), ruleSlotGuardAgreement(), ruleAccessGuarded(), ruleNoEmitUnderTeardownLock(), ruleShareReplayConfig(), ruleTerminalReleaseAgreement(), ruleErrorBeforeRelease()},
 		Explanation: "Static effect/placement check. User code can run in four kinds of places; the rules prove where each call of a user-supplied function sits (from the model's emission contexts) and that the recover points exist: " +
 			"the subscribe function runs inside a try whose handler emits Error and unsubscribes (CORE-RECOVER), observer callbacks run inside the try* helpers, library goroutines go through the recover wrapper or contain no user call (GO-RECOVER), " +
 			"user functions are only called in the subscribe body, a next slot or a teardown (USER-FN-CONTEXT), errors returned by callees become Error notifications without falling through (ERR-RESULT-USED), error wrappers unwrap (UNWRAP) and no function leaves a lock held on a normal exit (LOCK-PAIRING).",
 		NotDecided:  "panics in custom Observer implementations while subscriberImpl.mu is held (the unlocks are not deferred); exactly-once along a chain (follows from C01); the injected-fault sequences themselves (no execution).",
 		Assumptions: []string{"lo.TryCatchWithErrorValue recovers panics of its first argument and passes the value to the second"},
 		Floors:      map[string]int{"user_calls": 30, "go_statements": 8, "functions_with_locks": 40, "error_wrappers": 3, "foreign_calls_in_locking_functions": 1, "error_slot_notifications": 80, "delivering_methods": 3, "error_wrapper_constructors": 3},
-		Controls:    map[string]string{"zz_verif_controls_c07.go": roControl(controlsC07 + controlsC07b), "zz_verif_controls_nilguard.go": roControl(controlsNilGuard + controlsNilableCallback), "zz_verif_controls_access.go": roControl(controlsAccessGuard), "zz_verif_controls_termrel.go": roControl(controlsTerminalRelease + controlsErrorBeforeRelease), "zz_verif_controls_c06.go": roControl(controlsC06)},
+		Controls:    map[string]string{"zz_verif_controls_c07.go": roControl(controlsC07 + controlsC07b + controlsInnerTerminal + controlsFlushError), "zz_verif_controls_nilguard.go": roControl(controlsNilGuard + controlsNilableCallback), "zz_verif_controls_access.go": roControl(controlsAccessGuard), "zz_verif_controls_termrel.go": roControl(controlsTerminalRelease + controlsErrorBeforeRelease), "zz_verif_controls_c06.go": roControl(controlsC06)},
 	}
 }
 
